@@ -660,7 +660,7 @@ package parser
 //@   include ParseFrame
 //@   requires [C12:at-poryswitch] p.curToken.Type == token.PORYSWITCH
 //@   ensures [C18:consume-strict] result2 == nil ==> Left(p) < old(Left(p))
-//@   exit [C12:select-text] result2 == nil ==> (indom(cases, switchValue) ? (result0 == cases[switchValue] && result1 == strTypeCases[switchValue])
+//@   exit [C09,C12:select-text] result2 == nil ==> (indom(cases, switchValue) ? (result0 == cases[switchValue] && result1 == strTypeCases[switchValue])
 //@       : (indom(cases, "_") ? (result0 == cases["_"] && result1 == strTypeCases["_"]) : (result0 == "" && result1 == "")))
 //@   exit [C12:no-case] (result2 == nil && p.enableEnvironmentErrors) ==> (indom(cases, switchValue) || indom(cases, "_"))
 //@   ensures [C20:stack-balanced] result2 == nil ==> (SameStack(p.breakStack, old(p.breakStack)) && SameStack(p.continueStack, old(p.continueStack)))
